@@ -3,10 +3,10 @@ CONSTANTS Keys = {"a", "b"}
           NReq = 2
           NProv = 1
           Devs = {}
-          MipSet = {0, 1}
+          MipSet = {1}
           MpcSet = {0}
           FpSet = {FALSE}
-          IgnSets = {{}, {1}}
+          IgnSets = {{}}
           MaxTicks = 2
           MaxArgs = {0}
           DialSet = {"ok"}
